@@ -303,13 +303,13 @@ fields; distinct by (case digest, prefix length).",
     randoms: &[
         RandomDef {
             name: "response_heads",
-            cases: |t: Tier| t.pick(5_000, 320_000),
+            cases: |t: Tier| t.pick(40_000, 800_000),
             tape_len: 2_600,
             exec: Some(exec_response),
         },
         RandomDef {
             name: "request_heads",
-            cases: |t: Tier| t.pick(5_000, 320_000),
+            cases: |t: Tier| t.pick(40_000, 800_000),
             tape_len: 2_600,
             exec: Some(exec_request),
         },
